@@ -13,6 +13,7 @@ import (
 	goat "github.com/avos-io/goat"
 	"github.com/avos-io/goat/gen/goatorepo"
 	"google.golang.org/grpc"
+	"google.golang.org/grpc/codes"
 	"google.golang.org/grpc/metadata"
 	"google.golang.org/grpc/status"
 	"google.golang.org/protobuf/proto"
@@ -110,6 +111,9 @@ func c05List(tier string) []c05Case {
 	}
 	for i := 0; i < tierN(tier, 6, 48); i++ {
 		out = append(out, c05Case{Family: "websocket", Calls: i})
+	}
+	for i := 0; i < tierN(tier, 4, 24); i++ {
+		out = append(out, c05Case{Family: "refused-among-others", Calls: 4 + 2*(i%4)})
 	}
 	return out
 }
@@ -667,12 +671,82 @@ func c05IDs(tier string, seed int64, idx int, c c05Case, res *core.Result) {
 	finish(tier, b, h, res)
 }
 
+// c05Refused: k concurrent unary calls on one connection; the request metadata of one of them is
+// damaged in transit (an undecodable -bin value), so the server refuses it on its own. Every reply
+// belongs to the call that owns its identifier: the refused call gets its refusal - not nothing -
+// and every other call its own reply.
+func c05Refused(tier string, seed int64, idx int, c c05Case, res *core.Result) {
+	setGMP([]int{1, 4, 16}[idx%3])
+	h := bed.NewHooks()
+	h.Install()
+	b := bed.New(bed.Opts{Cap: idx % 3, Serialise: idx%2 == 0})
+	cc := b.Conns[0]
+	victim := fmt.Sprintf("c05r-%d-%d", idx, c.Calls/2)
+	b.Links[0].A.SetOnWriteEntry(func(r *wire.Rpc) {
+		for _, kv := range r.GetHeader().GetHeaders() {
+			if kv.Key == svc.TagKey && kv.Value == victim {
+				for _, kv2 := range r.Header.Headers {
+					if kv2.Key == "x-bin" {
+						kv2.Value = "!!!not base64!!!"
+					}
+				}
+			}
+		}
+	})
+	type out struct {
+		tag string
+		got []byte
+		err error
+	}
+	results := make(chan out, c.Calls)
+	for i := 0; i < c.Calls; i++ {
+		tag := fmt.Sprintf("c05r-%d-%d", idx, i)
+		go func() {
+			ctx := metadata.AppendToOutgoingContext(context.Background(), "x-bin", "\x01\x02")
+			var g []byte
+			var err error
+			if i%2 == 0 {
+				g, err = svc.Invoke(ctx, cc, tag, []byte(tag))
+			} else {
+				g, err = svc.Invoke2(ctx, cc, tag, []byte(tag))
+			}
+			results <- out{tag, g, err}
+		}()
+	}
+	st, snap := settle(tier, func() bool { return len(results) == c.Calls })
+	if st == "stuck" {
+		res.ViolateD("refused-call-never-returns", map[string]any{"goat_goroutines": goatParked(snap)}, "%d concurrent unary calls, the request metadata of %s damaged in transit: only %d calls returned (final state) - a reply did not reach the call that owns its id", c.Calls, victim, len(results))
+	} else if st == "ok" {
+		for i := 0; i < c.Calls; i++ {
+			o := <-results
+			switch {
+			case o.tag == victim && o.err == nil:
+				res.Violate("refused-call-answered-ok", "call %s (undecodable request metadata) returned %q without error", o.tag, o.got)
+			case o.tag == victim && status.Code(o.err) == codes.DeadlineExceeded:
+				res.Violate("refused-call-never-returns", "call %s got %v", o.tag, o.err)
+			case o.tag != victim && (o.err != nil || !strings.HasSuffix(string(o.got), o.tag)):
+				res.Violate("foreign-or-missing-reply", "call %s (not damaged) got %q err=%v", o.tag, o.got, o.err)
+			}
+		}
+		res.Stat("refused_among_others_cases", 1)
+	} else {
+		res.Verdict, res.Note = core.Inconclusive, "watchdog"
+	}
+	res.Evals = int64(c.Calls)
+	res.NonTrivial = true
+	res.DistinctNT = 1
+	finish(tier, b, h, res)
+}
+
 func c05Run(tier string, seed int64, idx int) *core.Result {
 	c := c05List(tier)[idx]
 	res := &core.Result{Verdict: core.Held, Sample: c, Sig: fmt.Sprintf("%+v/%d", c, idx)}
 	switch c.Family {
 	case "ids":
 		c05IDs(tier, seed, idx, c, res)
+		return res
+	case "refused-among-others":
+		c05Refused(tier, seed, idx, c, res)
 		return res
 	case "websocket":
 		wc := wsGen(c.Calls, true)
@@ -709,13 +783,13 @@ func init() {
 	core.Register(&core.Prop{
 		ID:         "C05",
 		Level:      "exploration",
-		Rule:       "(perm) for each configuration of k<=3 (thorough also 4) outstanding calls with per-call scripts of 1 (unary) or 2..6 envelopes, EVERY order-preserving merge (multiset permutation) of the scripts is played on a fresh connection: by a scripted server against a real client (replies, headers, bodies, trailers, distinct statuses per call) and by a scripted client against a real server (requests, opens, bodies, half-closes); each call/handler must observe exactly its own script. (ids) histories of 1280 calls per connection (quick 8, thorough 80 connections), 64 callers released from a barrier per burst, unary and streams mixed, every 4th history through the proxy in bursts of 12, every 4th over two client connections served by one Server object, then 1500 pairs of one unary call and one stream open started at the same instant (spin barrier), a half-close arriving after the server finished the call, and calls whose write is reported failed although it was delivered: ids on the wire pairwise distinct, one id per call, every call sees only its own echo. (websocket) quick 6 / thorough 48 cases of 2..16 unary calls and 2..8 echo streams at once over the shipped websocket transport on loopback sockets with stalling writes, payloads 0..64 KiB: no call or stream sees foreign content (calls that merely fail are counted, not judged here; 30 s wall bound = inconclusive). distinct_nontrivial = interleavings enumerated (all distinct) + id histories.",
+		Rule:       "(perm) for each configuration of k<=3 (thorough also 4) outstanding calls with per-call scripts of 1 (unary) or 2..6 envelopes, EVERY order-preserving merge (multiset permutation) of the scripts is played on a fresh connection: by a scripted server against a real client (replies, headers, bodies, trailers, distinct statuses per call) and by a scripted client against a real server (requests, opens, bodies, half-closes); each call/handler must observe exactly its own script. (ids) histories of 1280 calls per connection (quick 8, thorough 80 connections), 64 callers released from a barrier per burst, unary and streams mixed, every 4th history through the proxy in bursts of 12, every 4th over two client connections served by one Server object, then 1500 pairs of one unary call and one stream open started at the same instant (spin barrier), a half-close arriving after the server finished the call, and calls whose write is reported failed although it was delivered: ids on the wire pairwise distinct, one id per call, every call sees only its own echo. (websocket) quick 6 / thorough 48 cases of 2..16 unary calls and 2..8 echo streams at once over the shipped websocket transport on loopback sockets with stalling writes, payloads 0..64 KiB: no call or stream sees foreign content (calls that merely fail are counted, not judged here; 30 s wall bound = inconclusive). distinct_nontrivial = interleavings enumerated (all distinct) + id histories. (refused) 4..10 concurrent unary calls on one connection, the request metadata of one of them damaged in transit (undecodable -bin value) so that the server refuses it on its own: the refusal reaches the call that owns its id (an error, not a hang) and every other call gets its own reply.",
 		Plan:       func(tier string, seed int64) int { return len(c05List(tier)) },
 		Run:        c05Run,
 		Exhaustive: func(string) bool { return true },
 		MaxStats:   []string{"max_ids_on_one_connection"},
 		RequiredStats: func(string) []string {
-			return []string{"interleavings_client-perm", "interleavings_server-perm", "ids_checked", "ws_streams_checked", "ws_unary_calls_checked", "delivered_but_failed_writes", "simultaneous_unary_stream_pairs", "half_closes_after_server_end"}
+			return []string{"interleavings_client-perm", "interleavings_server-perm", "ids_checked", "ws_streams_checked", "ws_unary_calls_checked", "delivered_but_failed_writes", "simultaneous_unary_stream_pairs", "half_closes_after_server_end", "refused_among_others_cases"}
 		},
 		Assumptions: []string{"exhaustive = all interleavings of the listed script-length configurations; id histories are sampled schedules"},
 	})
